@@ -105,6 +105,13 @@ Subst(s, ps) ==
     [] s.k = "similar" -> [s EXCEPT !.x = Subst(s.x, ps), !.pat = Subst(s.pat, ps)]
     [] s.k = "param"   -> IF s.n \in DOMAIN ps THEN ParamConst(ps[s.n]) ELSE [k |-> "other", node |-> "unbound parameter"]
     [] OTHER -> s
+\* x BETWEEN lo AND hi is x >= lo AND x <= hi
+RECURSIVE NormBetween(_)
+NormBetween(s) ==
+  CASE s.k = "bool"    -> [s EXCEPT !.args = [i \in DOMAIN s.args |-> NormBetween(s.args[i])]]
+    [] s.k = "between" -> [k |-> "bool", op |-> "AND", args |-> << [k |-> "cmp", op |-> ">=", l |-> s.x, r |-> s.lo],
+                                                                     [k |-> "cmp", op |-> "<=", l |-> s.x, r |-> s.hi] >>]
+    [] OTHER -> s
 \* two ASTs are the same predicate text-for-text up to the spelling of numbers (1.50 vs 1.5) and number kind
 RECURSIVE SameAst(_,_)
 \* numbers are identified by their exact value (key = normalised fraction computed by the harness from the spelling
